@@ -30,6 +30,7 @@ func init() {
 			"under K0 all caches on; K1 node pool off; K2 javascript caches off; K3 every LRU (xpath, regexp, js program, node-JSON) shrunk to one " +
 			"entry; K4 every cache and the node pool emptied after every Read; K6 = K1+K2; plus K5 online: after every Read the same live record is " +
 			"re-evaluated with the per-record result cache disabled (and, as a control, enabled) through the verif hook. All transcripts must equal K0's. " +
+			"Half of the K0 runs are preceded by unrelated (XML, JSON, javascript) transforms; schemas include failing xpath_dynamic declarations with identical twins, lenient/strict twins, javascript typeof probes and throwing scripts. " +
 			"distinct = digest(schema, input); non-trivial = >=2 records and a schema with a duplicated declaration, template or javascript.",
 		Assumptions: []string{
 			"cache switches are process-global; cases run sequentially inside a child process and restore every switch before returning",
